@@ -109,7 +109,9 @@ let run_case k line =
              | None -> "noop")
           | OUnreg c ->
             let cn = nat_of_int c in
-            if try_label s evs (LUnregBegin cn)
+            (* SetThreadPool(NULL) on a client whose _threadPool is NULL is a no-op (the stale-pointer form of the label
+               only arises with truly concurrent threads, stage 2) *)
+            if lmem cn !s.s_cl && try_label s evs (LUnregBegin cn)
             then (if List.exists (function EUnregBegin (_, w) -> w | _ -> false) !evs then "wait" else "ret")
             else "noop"
           | OShut -> if try_label s evs LShutBegin then "ok" else "noop" in
